@@ -505,6 +505,9 @@ def c10g(ctx):
     for qn, var, target in sites:
         fn = ctx.fn(qn)
         g = fn.cfg
+        anyload = [x for x in fn.walk() if is_call(x, 'load_limited_to') and x.args and isinstance(x.args[0], ast.Name)]
+        if anyload:
+            var = anyload[0].args[0].id        # the local that holds the callback's limit (whatever it is called)
         loads = g.find(lambda x: is_call(x, 'load_limited_to') and x.args and unparse(x.args[0]) == var)
         truthy = lambda at: at.op is None and unparse(at.expr) == var
         ok = bool(loads) and all(g.guarded(n, truthy, True) for n, x in loads)
@@ -522,11 +525,13 @@ def c10g(ctx):
     for qn in (TILE + ':TileServer.authorize_tile_layer', KML + ':KMLServer.authorize_tile_layer', WMTS + ':WMTSServer.authorize_tile_layer'):
         fn = ctx.fn(qn)
         defs = Defs(fn.node)
-        vals = [unparse(v) for v, sel in defs.of('limited_to')]
+        anyload = [x for x in fn.walk() if is_call(x, 'load_limited_to') and x.args and isinstance(x.args[0], ast.Name)]
+        lv = anyload[0].args[0].id if anyload else 'limited_to'
+        vals = [unparse(v) for v, sel in defs.of(lv)]
         ok = any(".get('limited_to')" in v and 'layers' in v for v in vals) and any(v.replace(' ', '') == "result.get('limited_to')" for v in vals)
         g = fn.cfg
-        fb = g.find_stmts(lambda s: isinstance(s, ast.Assign) and unparse(s.targets[0]) == 'limited_to' and unparse(s.value).replace(' ', '') == "result.get('limited_to')")
-        ok = ok and all(g.guarded(n, lambda at: at.op is None and unparse(at.expr) == 'limited_to', False) for n in fb)
+        fb = g.find_stmts(lambda s: isinstance(s, ast.Assign) and unparse(s.targets[0]) == lv and unparse(s.value).replace(' ', '') == "result.get('limited_to')")
+        ok = ok and all(g.guarded(n, lambda at: at.op is None and unparse(at.expr) == lv, False) for n in fb)
         ctx.check(ok, '%s:layer-limit-then-global' % fn.short, 'the layer\'s own limit is used, the global limit only when the layer has none', fn)
 
 
